@@ -10,7 +10,7 @@ EXTENDS Autograd
 
 MC_LeafVals == {LitT(<<2, 2>>, <<1, -2, 0, 3>>), LitT(<<1, 2>>, <<5, 7>>)}
 MC_UnOps == {<<"slice", [index |-> <<<<0, 1>>>>]>>, <<"slice", [index |-> <<<<0, 0>>, <<1, 2>>>>]>>,
-             <<"reshape", [shape |-> <<4>>]>>, <<"broadcast", [shape |-> <<2, 2>>]>>, <<"broadcast", [shape |-> <<2, 1, 2>>]>>}
+             <<"reshape", [shape |-> <<4>>]>>, <<"reshape", [shape |-> <<2, 2>>]>>, <<"slice", [index |-> <<>>]>>, <<"scale", [k |-> One]>>, <<"broadcast", [shape |-> <<2, 2>>]>>, <<"broadcast", [shape |-> <<2, 1, 2>>]>>}
 MC_BinOps == {<<"patch", [index |-> <<<<1, 2>>>>]>>, <<"concat", [dim |-> 0]>>}
 Bounded == TRUE
 =============================================================================
